@@ -28,6 +28,12 @@ CHECKS = {
     text="Generated async fn / module fn / entraited trait (static; dynamic with async_trait) / impl-block inputs over return types {omitted unit, owned, borrowed from argument, borrowed from deps/self, generic} x {default, ?Send}. Positive programs must compile and run: is_send on the method's future inside `fn w<D: Trait + Sync>`, exact Future::Output ascription, Rc-across-await bodies under ?Send, `&dyn Trait` for async_trait, awaited result equal to the direct call. Negative programs must be rejected (Rc across await without ?Send; is_send witness under ?Send) and are recompiled alone before being believed. Recorded expansions of async_trait inputs must keep `async fn` and carry the attribute on every generated trait/impl. 300 inputs (+ about 100 negative probes) quick / 5000 thorough.",
     note="The input space is small by nature (a few hundred distinct programs); negative facts are sampled, not proved. async_trait's own `?Send` is outside the statement.",
     design="§2 C12"),
+ "C13": dict(
+    technique="exhaustive enumeration of a small visibility lattice as compiled positive/negative access probes; expected verdict from Rust's visibility rules applied to the spec",
+    engine="E2",
+    text="All 156 points of {fn x 5 requested visibilities x 3 fn visibilities, mod x 3 x 2, trait (delegation-target trait) x 5} x 6 access sites inside a nested module tree are compiled as one probe each: naming the trait must succeed exactly where the requested visibility allows it, and must be rejected with a privacy/resolution error everywhere else (a 'compiles' on a must-fail probe is confirmed in isolation). Complete in the quick tier.",
+    note="Exhaustive for the stated lattice only; the other-crate site is not built (pub vs pub(crate) are distinguished by no probe); module mode with pub(super)/pub(in) is a documented don't-care.",
+    design="§2 C13"),
  "C15": dict(
     technique="property-based testing + coverage-guided fuzzing of (attribute tokens, item) pairs; oracle: no panic, output parses, documented misuses get their own diagnostic",
     engine="E1+E3",
